@@ -1,22 +1,45 @@
 (* C04 - Damaged or truncated files are never silently accepted as different content.
-   Model: Model/Bf3.v (C01; strict BytesReader of Base/Reader.v) and Model/Damage.v
-   (the MAC computations of the writer and the MAC verifications of the reader as lists).
-   Binary-level theorems are stated for every offset (BF3: 4, BEC2: length of the header). *)
-From Coq Require Import List NArith ZArith.
+
+   Model: Model/Bf3.v (C01: writer, reader, text layer; strict BytesReader of Base/Reader.v)
+   and Model/Damage.v (the MAC computations of the writer and the MAC comparisons of the
+   reader as lists of (key, iv, message, tag)); tied to /repo by the correspondence of
+   tools/props/C04.py (model == implementation at every damage point of generated files,
+   toy cipher) and of C01.
+   The cipher is the registered adapter (zero-padded CBC, Model/Cbc.v) over ANY block
+   function with D k (E k b) = b on 16-byte blocks; C16 shows the bundled AES is one.
+   Binary-level statements hold for every offset [off]: 5 for BF3 (the signature), the
+   length of signature + authentication blocks for BEC2.
+
+   Three groups, of different strength (DESIGN.md section 5, C04):
+   1. truncation / extension / damage confined to a field the reader recomputes:
+      unconditional theorems;
+   2. byte replacement and wrong session key: C04_forgery_reduction_partial - what is NOT
+      proved (and cannot be, for an abstract cipher) is unforgeability of the CBC-MAC;
+   3. the concrete sweep on implementation and model is in tools/props/C04.py. *)
+From Coq Require Import List Bool NArith ZArith.
 From Coq Require Import Init.Byte.
-From Bec2 Require Import Base.Result Base.Bytes Base.Reader Gen.Consts Model.Cbc Model.Bf3 Model.Damage
-  Proofs.CbcProofs Proofs.Bf3Proofs Proofs.Bf3TextProofs Proofs.DamageProofs.
+From Bec2 Require Import Base.Result Base.Bytes Base.Reader Gen.Consts Model.Cbc Model.Bf3 Model.Bf3Eq Model.Damage
+  Proofs.CbcProofs Proofs.Bf3Proofs Proofs.Bf3TextProofs Proofs.DamageProofs Proofs.DamageStructProofs
+  Proofs.DamageReductionProofs Proofs.DamageTextProofs Proofs.DamageCbcProofs Proofs.DamageByteProofs
+  Proofs.DamageTextFinalProofs Proofs.DamageAdapterProofs.
 Import ListNotations.
 Open Scope N_scope.
 
-(* ---- 1a. bytes appended: no assumption on the cipher at all ------------------- *)
-(* whatever binary the reader accepts (authentic or not), with MAC checking on or off:
-   the same binary followed by any non-empty suffix is rejected *)
+(* ---- 1a. bytes appended: no assumption on the cipher at all ---------------------------- *)
+(* whatever binary the reader accepts (authentic or not, MAC checking on or off): the same
+   binary followed by any non-empty suffix is rejected (BytesReader.ensure_eof) *)
 Theorem C04_suffix : forall (dec mac : bytes -> option bytes -> bytes -> result bytes) x off check k cs s,
   from_binary dec mac (mkR x off) check k = Ok cs -> s <> [] ->
   from_binary dec mac (mkR (x ++ s) off) check k = Err EValue.
 Proof. exact from_binary_suffix. Qed.
 Print Assumptions C04_suffix.
+
+(* the frame property behind it: the reader's run depends only on the bytes it consumes *)
+Theorem C04_frame : forall (dec mac : bytes -> option bytes -> bytes -> result bytes) r check k cs r' s,
+  from_binary_open dec mac r check k = Ok (cs, r') ->
+  from_binary_open dec mac (ext r s) check k = Ok (cs, ext r' s).
+Proof. exact from_binary_open_frame. Qed.
+Print Assumptions C04_frame.
 
 Section C04.
   Variable E D : bytes -> bytes -> bytes.
@@ -27,56 +50,261 @@ Section C04.
   Let dec := adapter_decrypt D.
   Let mac := adapter_mac E.
 
-  Lemma c4_mac_len : forall k iv d m, d <> [] -> mac k iv d = Ok m -> blen m = 16.
-  Proof. exact (adapter_mac_len E D E_len DE). Qed.
-  Lemma c4_enc_len : forall k d c, blen d mod 16 = 0 -> enc k None d = Ok c -> blen c = blen d.
-  Proof. intros k d c Hm He. exact (proj2 (adapter_inverse E D E_len DE k None d c Hm He)). Qed.
-  Lemma c4_dec_enc : forall k d c, blen d mod 16 = 0 -> enc k None d = Ok c -> dec k None c = Ok d.
-  Proof. intros k d c Hm He. exact (proj1 (adapter_inverse E D E_len DE k None d c Hm He)). Qed.
-
-  (* ---- 1b. the file cut short: every proper prefix of an authentic binary is rejected
-     (in particular the prefixes that only drop trailing 0x00 bytes of the last payload) *)
+  (* ---- 1b. the file cut short (crash, full disk): every proper prefix of an authentic
+     binary is rejected with a Python exception (never the model's fuel error) - in
+     particular the prefixes that only drop trailing 0x00 bytes of the last payload *)
   Theorem C04_prefix : forall cs off k p s check,
     Forall wf_comp cs -> to_binary enc mac cs off k = Ok (p ++ s) -> s <> [] ->
     exists e, from_binary dec mac (mkR p off) check k = Err e /\ e <> EFuel.
-  Proof.
-    intros cs off k p s check Hwf Hw Hs.
-    pose proof (from_binary_to_binary enc dec mac c4_mac_len c4_enc_len c4_dec_enc cs off k _ check Hwf Hw) as Hr.
-    destruct (from_binary_prefix dec mac p s off check k _ Hr Hs) as [e He].
-    exists e. split; [exact He|]. intros ->. revert He.
-    apply from_binary_no_fuel; intros k0 iv d; unfold mac, dec, adapter_mac, adapter_encrypt, adapter_decrypt.
-    - destruct d; cbn [bind]; [discriminate|].
-      destruct (negb (key_ok k0)); cbn [bind]; [discriminate|].
-      destruct (negb (blen (the_iv iv) =? 16)); cbn [bind]; discriminate.
-    - destruct (negb (blen d mod 16 =? 0)); [discriminate|]. destruct d; [discriminate|].
-      destruct (negb (key_ok k0)); [discriminate|].
-      destruct (negb (blen (the_iv iv) =? 16)); discriminate.
-  Qed.
+  Proof. intros. eapply (ad_prefix E D E_len DE); eassumption. Qed.
 
   (* an authentic binary followed by anything is rejected *)
   Theorem C04_suffix_authentic : forall cs off k b s check,
     Forall wf_comp cs -> to_binary enc mac cs off k = Ok b -> s <> [] ->
     from_binary dec mac (mkR (b ++ s) off) check k = Err EValue.
+  Proof. intros. eapply (ad_suffix E D E_len DE); eassumption. Qed.
+
+  (* ---- 1c. the hex text --------------------------------------------------------------- *)
+  (* appended characters that hex2bin removes (white space, ",-./:"): content unchanged *)
+  Theorem C04_text_suffix_removed : forall f k t s check,
+    wf_file f -> write_file enc mac f k = Ok t -> filter keep s = [] ->
+    read_file dec mac (t ++ s) check k = Ok (file_view f).
+  Proof. intros. eapply (ad_text_suffix_removed E D E_len DE); eassumption. Qed.
+
+  (* any other appended text (hex digits - also an odd number of them, which hex2bin repairs
+     by inserting "0" before the last character - or non-hex characters): rejected *)
+  Theorem C04_text_suffix : forall f k t s check,
+    wf_file f -> write_file enc mac f k = Ok t -> filter keep s <> [] ->
+    read_file dec mac (t ++ s) check k = Err EBf3 \/ read_file dec mac (t ++ s) check k = Err EValue.
+  Proof. intros. eapply (ad_text_suffix_rejected E D E_len DE); eassumption. Qed.
+
+  (* every proper prefix of the written text (every crash point of the writer's output stream:
+     inside the comment block, at the blank line, between hex pairs, inside a hex pair, inside
+     the trailing line breaks), MAC checking on: an error, or exactly the original content
+     (the latter only when nothing but line breaks - or the second "0" of a final "00" - is
+     lost).  A cut inside a hex pair leaves a dangling digit that hex2bin's odd-length repair
+     turns into the byte x / 16: for any pair but the last the binary is then too short
+     (C04_cut_inside_pair), for the last pair it is the authentic binary with its last payload
+     byte replaced, which the payload MAC always detects (C04_payload_byte). *)
+  Theorem C04_text_prefix : forall f k t p s,
+    wf_file f -> write_file enc mac f k = Ok t -> t = p ++ s -> s <> [] ->
+    (exists e, read_file dec mac p true k = Err e) \/ read_file dec mac p true k = Ok (file_view f).
+  Proof. intros. eapply (ad_text_prefix_full E D E_len DE); eassumption. Qed.
+
+  (* the same with MAC checking on or off: a third case appears, the cut through the LAST hex
+     pair (byte x <> 0x00): the reader sees the authentic binary with its last byte replaced by
+     x / 16 and, without MAC checking, accepts it *)
+  Theorem C04_text_prefix_any_check : forall f k t p s check,
+    wf_file f -> write_file enc mac f k = Ok t -> t = p ++ s -> s <> [] ->
+    (exists e, read_file dec mac p check k = Err e) \/
+    read_file dec mac p check k = Ok (file_view f) \/
+    (exists b r1 x, to_binary enc mac (f_comps f) (blen BF3_FILE_SIG) k = Ok b /\
+       BF3_FILE_SIG ++ b = r1 ++ [x] /\ x <> x00 /\
+       read_file dec mac p check k = read_binary dec mac (f_comments f) (r1 ++ [n2b (b2n x / 16)]) check k).
+  Proof. intros. eapply (ad_text_prefix E D E_len DE); eassumption. Qed.
+
+  (* binary level: a proper prefix followed by one arbitrary byte is rejected *)
+  Theorem C04_cut_inside_pair : forall cs off k b b1 x r2 y check,
+    Forall wf_comp cs -> to_binary enc mac cs off k = Ok b ->
+    b = b1 ++ x :: r2 -> r2 <> [] -> x <> x00 ->
+    exists e, from_binary dec mac (mkR (b1 ++ [y]) off) check k = Err e.
   Proof.
-    intros cs off k b s check Hwf Hw Hs.
-    eapply from_binary_suffix; [|exact Hs].
-    exact (from_binary_to_binary enc dec mac c4_mac_len c4_enc_len c4_dec_enc cs off k _ check Hwf Hw).
+    intros. eapply (cut_byte_rejected enc dec mac (ad_mac_len E D E_len DE) (ad_enc_len E D E_len DE)); eassumption.
   Qed.
+
+  (* ---- 1d. deterministic corollaries: the reader recomputes a value from other bytes and
+     compares it with the stored field ------------------------------------------------------ *)
+  (* the signature *)
+  Theorem C04_signature : forall t b cm check k,
+    parse_bf3_file t = Ok (b, cm) -> (forall r, b <> BF3_FILE_SIG ++ r) ->
+    read_file dec mac t check k = Err EBf3 \/ read_file dec mac t check k = Err EValue.
+  Proof. intros. eapply ad_signature; eassumption. Qed.
+
+  (* where the fields of the component c of an authentic file cs1 ++ c :: cs2 lie *)
+  Theorem C04_layout : forall cs1 c cs2 off k b,
+    Forall wf_comp (cs1 ++ c :: cs2) -> to_binary enc mac (cs1 ++ c :: cs2) off k = Ok b ->
+    exists d1 d2 p1 p2 raw pmac tags emac adr0,
+      comp_layout enc mac cs1 c cs2 off k d1 d2 p1 p2 raw pmac tags emac adr0 /\
+      b = file_of (dir_of d1 (entry_body (adr0 + blen p1) (blen raw) (c_alen c) pmac tags ++ emac) d2 [x00])
+                  (p1 ++ raw ++ p2).
+  Proof. intros. eapply (ad_layout E D E_len DE); eassumption. Qed.
+
+  (* damage confined to the stored entry MAC (any of its 16 bytes, any number of them) *)
+  Theorem C04_macfield : forall cs1 c cs2 off k d1 d2 p1 p2 raw pmac tags emac adr0 emac',
+    comp_layout enc mac cs1 c cs2 off k d1 d2 p1 p2 raw pmac tags emac adr0 ->
+    blen emac' = 16 -> emac' <> emac ->
+    from_binary dec mac (mkR (file_of (dir_of d1 (entry_body (adr0 + blen p1) (blen raw) (c_alen c) pmac tags ++ emac') d2 [x00])
+                                      (p1 ++ raw ++ p2)) off) true k = Err EBf3.
+  Proof. intros. eapply (ad_entry_mac_field E D E_len DE); eassumption. Qed.
+
+  (* damage confined to the stored payload MAC: the entry MAC check fails, or else the payload
+     MAC check does *)
+  Theorem C04_macfield_payload : forall cs1 c cs2 off k d1 d2 p1 p2 raw pmac tags emac adr0 pmac',
+    comp_layout enc mac cs1 c cs2 off k d1 d2 p1 p2 raw pmac tags emac adr0 ->
+    blen pmac' = 16 -> pmac' <> pmac ->
+    exists e,
+    from_binary dec mac (mkR (file_of (dir_of d1 (entry_body (adr0 + blen p1) (blen raw) (c_alen c) pmac' tags ++ emac) d2 [x00])
+                                      (p1 ++ raw ++ p2)) off) true k = Err e.
+  Proof. intros. eapply (ad_payload_mac_field E D E_len DE); eassumption. Qed.
+
+  (* a changed address field: the entry MAC check fails, or else the address comparison does *)
+  Theorem C04_address : forall cs1 c cs2 off k d1 d2 p1 p2 raw pmac tags emac adr0 adr',
+    comp_layout enc mac cs1 c cs2 off k d1 d2 p1 p2 raw pmac tags emac adr0 ->
+    adr' < 256 ^ N.of_nat 4 -> adr' <> adr0 + blen p1 ->
+    exists e,
+    from_binary dec mac (mkR (file_of (dir_of d1 (entry_body adr' (blen raw) (c_alen c) pmac tags ++ emac) d2 [x00])
+                                      (p1 ++ raw ++ p2)) off) true k = Err e.
+  Proof. intros. eapply (ad_address_field E D E_len DE); eassumption. Qed.
+
+  (* the sentinel byte replaced by anything else (same length): rejected, MAC checking on or off *)
+  Theorem C04_sentinel : forall cs off k b y check,
+    Forall wf_comp cs -> to_binary enc mac cs off k = Ok b ->
+    exists db pb, b = file_of (db ++ [x00]) pb /\ blen b = blen (file_of (db ++ [y]) pb) /\
+      (y <> x00 -> from_binary dec mac (mkR (file_of (db ++ [y]) pb) off) check k = Err EValue).
+  Proof. intros. eapply (ad_sentinel E D E_len DE); eassumption. Qed.
+
+  (* ---- 1e. one replaced byte inside a MAC-protected message: unconditional as well ------- *)
+  (* the adapter's MAC is the last block of zero-padded CBC; with an invertible block function
+     (hypothesis DE) replacing ONE byte of the message always changes the tag *)
+  Theorem C04_mac_byte_sensitive : forall k iv u x y v t,
+    mac k iv (u ++ x :: v) = Ok t -> mac k iv (u ++ y :: v) = Ok t -> x = y.
+  Proof. exact (ad_mac_byte E D E_len DE). Qed.
+
+  (* hence: any single byte of any stored payload replaced -> rejected *)
+  Theorem C04_payload_byte : forall cs1 c cs2 off k d1 d2 p1 p2 raw pmac tags emac adr0 u x v y,
+    comp_layout enc mac cs1 c cs2 off k d1 d2 p1 p2 raw pmac tags emac adr0 ->
+    raw = u ++ x :: v -> y <> x ->
+    exists e,
+    from_binary dec mac (mkR (file_of (dir_of d1 (entry_body (adr0 + blen p1) (blen raw) (c_alen c) pmac tags ++ emac) d2 [x00])
+                                      (p1 ++ (u ++ y :: v) ++ p2)) off) true k = Err e.
+  Proof. intros. eapply (ad_payload_byte E D E_len DE); eassumption. Qed.
+
+  (* and any single byte of the MAC-protected part of any directory entry (address, total and
+     declared length, payload MAC, description length, tags) replaced -> rejected *)
+  Theorem C04_entry_byte : forall cs1 c cs2 off k d1 d2 p1 p2 raw pmac tags emac adr0 u x v y,
+    comp_layout enc mac cs1 c cs2 off k d1 d2 p1 p2 raw pmac tags emac adr0 ->
+    entry_body (adr0 + blen p1) (blen raw) (c_alen c) pmac tags = u ++ x :: v -> y <> x ->
+    exists e,
+    from_binary dec mac (mkR (file_of (dir_of d1 ((u ++ y :: v) ++ emac) d2 [x00]) (p1 ++ raw ++ p2)) off) true k = Err e.
+  Proof. intros. eapply (ad_entry_body_byte E D E_len DE); eassumption. Qed.
+  (* together with C04_macfield (entry MAC bytes) and C04_sentinel: of all single-byte
+     replacements only those of the 4-byte directory size and of the entry length bytes are
+     left to the reduction below. *)
+
+  (* ---- 2. byte replacement, wrong session key: reduction to a MAC forgery ---------------- *)
+  (* PARTIAL: the CBC-MAC is not (and cannot be) proved unforgeable here.  What is proved, for
+     every cipher as above: if a binary b' of the authentic length is accepted under a key k'
+     with MAC checking on and the content returned differs from the original, then
+       - one of the MAC comparisons the reader made on b' under k' succeeded on a
+         (key, iv, message, tag) that is not among those the writer computed for the original
+         file under k (for k' <> k: any successful comparison is such a quadruple), or
+       - the authentic file itself contains two different payloads of equal length with the
+         same payload MAC (payload MACs are not bound to the entry index).
+     b' = b with k' <> k is the "wrong session key" case; b' <> b with k' = k the
+     "byte(s) replaced" case. *)
+  Theorem C04_forgery_reduction_partial : forall cs off k b E0 b' k' g,
+    Forall wf_comp cs -> to_binary enc mac cs off k = Ok b -> macs_emitted enc mac cs off k = Ok E0 ->
+    blen b' = blen b ->
+    from_binary dec mac (mkR b' off) true k' = Ok g -> g <> map view cs ->
+    (exists q, In q (mac_checks mac b' off k') /\ verified mac q /\ ~ In q E0)
+    \/ payload_collision E0.
+  Proof. intros. eapply (ad_forgery_reduction E D E_len DE); eassumption. Qed.
+
+  (* without the length restriction there is exactly one more way out: b' is the empty file
+     (no entry, hence no MAC at all: the number of components is not authenticated) *)
+  Theorem C04_forgery_reduction_general_partial : forall cs off k b E0 b' k' g,
+    Forall wf_comp cs -> to_binary enc mac cs off k = Ok b -> macs_emitted enc mac cs off k = Ok E0 ->
+    from_binary dec mac (mkR b' off) true k' = Ok g -> g <> map view cs ->
+    (exists q, In q (mac_checks mac b' off k') /\ verified mac q /\ ~ In q E0)
+    \/ payload_collision E0
+    \/ (b' = empty_file /\ g = [] /\ cs <> []).
+  Proof. intros. eapply (ad_forgery_reduction_general E D E_len DE); eassumption. Qed.
+
+  (* the writer's MAC list exists whenever the writer accepts the object *)
+  Theorem C04_emitted_defined : forall cs off k b,
+    Forall wf_comp cs -> to_binary enc mac cs off k = Ok b -> exists E0, macs_emitted enc mac cs off k = Ok E0.
+  Proof. intros. eapply (ad_emitted E D E_len DE); eassumption. Qed.
 End C04.
 Print Assumptions C04_prefix.
 Print Assumptions C04_suffix_authentic.
+Print Assumptions C04_text_suffix_removed.
+Print Assumptions C04_text_suffix.
+Print Assumptions C04_text_prefix.
+Print Assumptions C04_text_prefix_any_check.
+Print Assumptions C04_cut_inside_pair.
+Print Assumptions C04_signature.
+Print Assumptions C04_layout.
+Print Assumptions C04_macfield.
+Print Assumptions C04_macfield_payload.
+Print Assumptions C04_address.
+Print Assumptions C04_sentinel.
+Print Assumptions C04_mac_byte_sensitive.
+Print Assumptions C04_payload_byte.
+Print Assumptions C04_entry_byte.
+Print Assumptions C04_forgery_reduction_partial.
+Print Assumptions C04_forgery_reduction_general_partial.
+Print Assumptions C04_emitted_defined.
 
-(* non-vacuity: the C01 example file; dropping its last byte (a 0x00 of the zero-padded
-   encrypted payload is not the point here: the file's last payload byte) and appending 0x00 *)
+(* ---- non-vacuity (toy cipher of Model/Cbc.v, concrete 2-component file with one encrypted
+   component): the authentic binary reads back; its proper prefix and its extension by 0x00 are
+   rejected; the text cut after every character and extended by "0" / "\n" behaves as proved;
+   a different authentic file of the same length is accepted with different content, so the
+   hypotheses of the reduction are satisfiable. *)
 Definition c4_file : bf3 :=
   mkBf3 [([107; 49], [118; 58; 120])]
         [mkComp [(0xC3, [x02]); (0x00, [])] [x01; x00; x00] 2 false;
          mkComp [(0xC2, [x02])] [x09; x08; x07; x00] 4 true].
+Definition c4_other : list comp :=
+  [mkComp [(0xC3, [x02]); (0x00, [])] [x01; x00; x01] 2 false;
+   mkComp [(0xC2, [x02])] [x09; x08; x07; x00] 4 true].
+Definition toy_e := adapter_encrypt toyE.
+Definition toy_d := adapter_decrypt toyD.
+Definition toy_m := adapter_mac toyE.
+
 Example C04_nonvacuous :
-  (let* b := to_binary (adapter_encrypt toyE) (adapter_mac toyE) (f_comps c4_file) 5 (zeros 16) in
-   Ok (from_binary (adapter_decrypt toyD) (adapter_mac toyE) (mkR b 5) true (zeros 16),
-       from_binary (adapter_decrypt toyD) (adapter_mac toyE) (mkR (removelast b) 5) true (zeros 16),
-       from_binary (adapter_decrypt toyD) (adapter_mac toyE) (mkR (b ++ [x00]) 5) true (zeros 16)))
+  (let* b := to_binary toy_e toy_m (f_comps c4_file) 5 (zeros 16) in
+   Ok (from_binary toy_d toy_m (mkR b 5) true (zeros 16),
+       from_binary toy_d toy_m (mkR (removelast b) 5) true (zeros 16),
+       from_binary toy_d toy_m (mkR (b ++ [x00]) 5) true (zeros 16)))
   = Ok (Ok (map view (f_comps c4_file)), Err EValue, Err EValue).
 Proof. vm_compute. reflexivity. Qed.
 Print Assumptions C04_nonvacuous.
+
+(* every proper prefix of the text: error or the original content (here the last byte of the
+   binary is 0x00-padded ciphertext, so the third case of C04_text_prefix shows up or not
+   depending on its value; the check below is the disjunction itself) *)
+Definition ok_or_same (want : bf3) (r : result bf3) : bool :=
+  match r with Err _ => true | Ok g => bf3_eqb g want end.
+Example C04_text_nonvacuous :
+  match write_file toy_e toy_m c4_file (zeros 16) with
+  | Ok t =>
+    forallb (fun n => ok_or_same (file_view c4_file) (read_file toy_d toy_m (firstn n t) true (zeros 16)))
+            (seq 0 (length t)) &&
+    bf3_eqb (file_view c4_file)
+      (match read_file toy_d toy_m (t ++ [10; 32; 13; 10]) true (zeros 16) with Ok g => g | Err _ => mkBf3 [] [] end) &&
+    negb (is_ok (read_file toy_d toy_m (t ++ [48]) true (zeros 16))) &&
+    negb (is_ok (read_file toy_d toy_m (t ++ [48; 48]) true (zeros 16))) &&
+    negb (is_ok (read_file toy_d toy_m (t ++ [90]) true (zeros 16)))
+  | Err _ => false
+  end = true.
+Proof. vm_compute. reflexivity. Qed.
+Print Assumptions C04_text_nonvacuous.
+
+(* the hypotheses of the reduction are satisfiable: another authentic file of the same length
+   is accepted with different content (whoever made it knew the key: its MACs are "forgeries"
+   only in the sense of the theorem - quadruples the writer of c4_file never computed) *)
+Example C04_reduction_nonvacuous :
+  match to_binary toy_e toy_m (f_comps c4_file) 5 (zeros 16), to_binary toy_e toy_m c4_other 5 (zeros 16),
+        macs_emitted toy_e toy_m (f_comps c4_file) 5 (zeros 16) with
+  | Ok b, Ok b', Ok E0 =>
+    (blen b' =? blen b) &&
+    match from_binary toy_d toy_m (mkR b' 5) true (zeros 16) with
+    | Ok g => negb (list_eqb comp_eqb g (map view (f_comps c4_file)))
+    | Err _ => false
+    end &&
+    (N.of_nat (length E0) =? 4) && (N.of_nat (length (mac_checks toy_m b' 5 (zeros 16))) =? 4) &&
+    (N.of_nat (length (mac_checks toy_m b 5 (zeros 16))) =? 4)
+  | _, _, _ => false
+  end = true.
+Proof. vm_compute. reflexivity. Qed.
+Print Assumptions C04_reduction_nonvacuous.
